@@ -422,7 +422,7 @@ def check_who_may(ctx):
     P = ctx.P
     for callee, table in (("ldb_remove_file", MAY_REMOVE), ("ldb_rename_file", MAY_RENAME)):
         callers = P.callers_of(callee)
-        ctx.require(len(callers) >= 5, "callers of %s not found" % callee)
+        ctx.require(len(callers) >= 3, "callers of %s not found" % callee)
         for f, b, i, e in callers:
             ctx.check(f.name in table, "T5-who-may-" + callee[4:], f.name, f.name, site(f, e),
                       "%s: %s" % (f.name, table.get(f.name)),
